@@ -29,6 +29,9 @@ func init() {
 	ruleText["R02.8"] = "in cfg, every assignment of node.findex guarded by 'the parent is a return statement' is unreachable when the return has several operands and the function's results are named (conditions evaluated three-valued under len(anc.child) > 1 and mustReturnValue(...) == false, one-line boolean helpers inlined)"
 	ruleText["R02.9"] = "outside (*Interpreter).ast no assignment gives node.action the action of a Go operator token, and none assigns an operator generator to node.gen directly"
 	ruleText["R02.11"] = "in every generator, SetUint(uint64(i)) with i extracted by genValueInt (or SetInt(int64(u)) with u from genValueUint) is reached only under path conditions whose predicates on the source's type accept no floating-point kind: a float is never narrowed through the other integer class"
+	ruleText["R02.14"] = "nothing in package interp fills a sync.Map or a package-level map after package initialisation (shared as R03.16): converted constants, operator choices or types are not cached process-wide under a key that says less than the value"
+	ruleText["R02.15"] = "in typecheck.binaryExpr every acceptance (return nil) placed before the conversion of an untyped operand to the other operand's type is guarded by a validity test of the constant value of both operands"
+	ruleText["R02.13"] = "in every switch without tag over the kind-class predicates (isInt, isUint, isFloat, isComplex, isString), anywhere in the package, each case can be taken: the kinds its predicates accept are not all taken by earlier cases"
 	ruleText["R02.12"] = "in cfg only the expression that is itself assigned takes the frame slot of the destination; an operand of that expression (a node whose grandparent is the assignment) never does"
 	ruleText["R02.10"] = "in the post-order unaryExpr case of cfg, every case of the slot-allocation switch that assigns both n.typ and n.findex (direct store into the destination or the result slot) has !isInterface(...) in its condition"
 	ruleText["R02.5"] = "in a closure that returns either the true or the false successor, the block guarded by the operator expression stores true and returns tnext, the other stores false and returns fnext"
@@ -72,6 +75,13 @@ func runC02(c *Config, r *Report) {
 	x.r10()
 	x.r11()
 	x.r11chain()
+	x.r2x13()
+	x.r2x15()
+	if icS, err := loadInterp(c, true); err == nil {
+		noProcessWideMemo(icS, r, "R02.14")
+	} else {
+		r.Errorf("R02.14: %v", err)
+	}
 	x.r3()
 	// constant operands: materialised through the accessor of their kind (shared with C03/R03.2)
 	sub := newReport("C03")
